@@ -56,6 +56,10 @@ def mk_signature(I, m, via_schema=False):
             tc = SObj(None, "tc")
             tc.pycls = object
             tc.fields["name"] = SStr(tv)
+            # the set of types the variable admits: one (And/Or/Xor: T = tensor(bool)) or several - the binding rule does not depend on it
+            if not formals:
+                several = ctx.choose(2, "the type variables admit several types") == 1
+            tc.fields["allowed_types"] = frozenset(["t0", "t1"][: 2 if several else 1])
             f.fields.update(type_constraint=tc, variadic=variadic, homogeneous=homog)
         f.fields["ghost"] = (tv, variadic, homog)
         formals.append(f)
